@@ -4444,6 +4444,216 @@ def spec_line_routes_agree(ctx, make_exe):
             post(exe_t, s_t, z3.BoolVal(getattr(ret_t, "name", None) == "fresh_line"), ft.name, "Line: the result is the line that was filled")
     return {"functions": [fs.name, ft.name], "paths": total}
 
+# ----------------------------------------------------------------------------
+# SPEC: simple selector components (class, id, element name, *) and the sibling index of :nth-child
+# ----------------------------------------------------------------------------
+
+def spec_selector_simple(ctx, make_exe):
+    import summaries
+    orig = summaries.summarize
+    f = the(ctx.find(r"do_matches$", debug=["comps", "node", "parent"]), "Selector::do_matches")
+    ctx.enums.setdefault("NodeData", ["Document", "Doctype", "Text", "Comment", "Element", "ProcessingInstruction"])
+    total = 0
+    for comp in ("Class", "Hash", "Element", "Star"):
+        for is_element in (True, False):
+            for n_attrs in ((0, 1, 2) if is_element and comp in ("Class", "Hash") else (0,)):
+                exe = make_exe(loop_bound=8)
+                st = State()
+                rest = exe.fresh("bool", "rest_matches")
+                name_eq = exe.fresh("bool", "element_name_equals")
+                payload = [] if comp == "Star" else [VOpaque("String", "wanted")]
+                comps = VVec([VAgg("SelectorComponent::" + comp, comp, payload), VOpaque("SelectorComponent", "next_component")])
+                is_cls = [exe.fresh("bool", "attr%d.is_class" % k) for k in range(n_attrs)]
+                is_id = [exe.fresh("bool", "attr%d.is_id" % k) for k in range(n_attrs)]
+                for k in range(n_attrs):
+                    st.pc.append(z3.Not(z3.And(is_cls[k].e, is_id[k].e)))
+                for i_ in range(n_attrs):
+                    for j_ in range(i_ + 1, n_attrs):
+                        st.pc += [z3.Not(z3.And(is_cls[i_].e, is_cls[j_].e)), z3.Not(z3.And(is_id[i_].e, is_id[j_].e))]
+                # each attribute value holds two whitespace-separated words; equality with the wanted name is arbitrary
+                word_eq = [[exe.fresh("bool", "attr%d.word%d.equals" % (k, w)) for w in range(2)] for k in range(n_attrs)]
+                val_eq = [exe.fresh("bool", "attr%d.value.equals" % k) for k in range(n_attrs)]
+                attrs = VVec([VAgg("Attribute", None, [VAgg("QualName", None, [VOpaque("Option<Prefix>", "pfx"), VOpaque("Namespace", "ns"), VOpaque("Atom", "attrname%d" % k)]),
+                                                        VOpaque("Tendril", "attrvalue%d" % k)]) for k in range(n_attrs)])
+                if is_element:
+                    data = VAgg("NodeData::Element", "Element", [VOpaque("QualName", "elname"), VOpaque("RefCell<Vec<Attribute>>", "attrcell"),
+                                                                  VOpaque("RefCell", "tc"), VOpaque("bool", "mx")])
+                else:
+                    data = VAgg("NodeData::Text", "Text", [VOpaque("RefCell<Tendril>", "text")])
+                node = VAgg("Node", None, [VOpaque("Cell", "parent"), VOpaque("RefCell", "children"), data])
+
+                def nm(exe_, st_, v):
+                    while isinstance(v, VRef):
+                        v = exe_.deref(st_, v)
+                    return getattr(v, "name", None) or ""
+
+                def summ(exe_, st_, f_, bb_, callee, args, dest_ty):
+                    c = callee.strip()
+                    if re.search(r"core::slice::<impl \[.*\]>::first$", c):
+                        return [(st_, VAgg("Option::Some", "Some", [VRef("val", comps.elems[0])]))]
+                    if re.search(r"^<\[SelectorComponent\] as Index<std::ops::RangeFrom<usize>>>::index$", c):
+                        return [(st_, VRef("val", VOpaque("[SelectorComponent]", "comps_tail")))]
+                    if re.search(r"Selector::do_matches$", c):
+                        return [(st_, rest)]
+                    if re.search(r"^<Rc<Node> as Deref>::deref$", c):
+                        return [(st_, VRef("val", node))]
+                    if re.search(r"^RefCell::<Vec<Attribute>>::borrow$", c):
+                        return [(st_, VRef("val", attrs))]
+                    if re.search(r"^<Ref<'_, Vec<Attribute>> as Deref>::deref$", c):
+                        return [(st_, args[0])]
+                    if re.search(r"Atom<LocalNameStaticSet> as PartialEq<&str>>::eq$", c):
+                        m_ = re.match(r"attrname(\d+)$", nm(exe_, st_, args[0]))
+                        lit = nm(exe_, st_, args[1])
+                        if m_ and '"class"' in lit:
+                            return [(st_, is_cls[int(m_.group(1))])]
+                        if m_ and '"id"' in lit:
+                            return [(st_, is_id[int(m_.group(1))])]
+                        return None
+                    if re.search(r"^<Tendril<UTF8> as Deref>::deref$", c):
+                        return [(st_, VRef("val", VOpaque("str", "value:" + nm(exe_, st_, args[0]))))]
+                    if re.search(r"core::str::<impl str>::split_whitespace$", c):
+                        k = int(nm(exe_, st_, args[0])[-1])
+                        return [(st_, VIter("vec", VVec([VRef("val", VOpaque("str", "word%d_%d" % (k, w))) for w in range(2)]), 0))]
+                    if re.search(r"^<SplitWhitespace<'_> as IntoIterator>::into_iter$", c):
+                        return [(st_, args[0])]
+                    if re.search(r"^<SplitWhitespace<'_> as Iterator>::next$", c):
+                        it = exe_.deref(st_, args[0])
+                        if it.pos < len(it.src.elems):
+                            exe_.write_ref(st_, args[0], [], VIter("vec", it.src, it.pos + 1), None)
+                            return [(st_, VAgg("Option::Some", "Some", [it.src.elems[it.pos]]))]
+                        return [(st_, VAgg("Option::None", "None", []))]
+                    if re.search(r"^<&str as PartialEq<&String>>::eq$", c):
+                        a_ = nm(exe_, st_, args[0])
+                        m_ = re.match(r"word(\d+)_(\d+)$", a_)
+                        if m_:
+                            return [(st_, word_eq[int(m_.group(1))][int(m_.group(2))])]
+                        m_ = re.match(r"value:attrvalue(\d+)$", a_)
+                        if m_:
+                            return [(st_, val_eq[int(m_.group(1))])]
+                        return None
+                    if re.search(r"QualName::expanded$", c):
+                        return [(st_, VAgg("ExpandedName", None, [VRef("val", VOpaque("Namespace", "ns")), VRef("val", VOpaque("Atom", "ellocal"))], ["ns", "local"]))]
+                    if re.search(r"Atom<LocalNameStaticSet> as Deref>::deref$", c):
+                        return [(st_, VRef("val", VOpaque("str", "elname_str")))]
+                    if re.search(r"^<&String as PartialEq<&str>>::eq$", c):
+                        return [(st_, name_eq)]
+                    return orig(exe_, st_, f_, bb_, callee, args, dest_ty)
+                summaries.summarize = summ
+                try:
+                    outs = exe.run(f.name, {1: VRef("val", comps), 2: VRef("val", VOpaque("Rc<Node>", "the_node"))}, st)
+                finally:
+                    summaries.summarize = orig
+                total += len(outs)
+                if not outs:
+                    raise Inconclusive("no path returned for %s" % comp)
+                if comp == "Class":
+                    hit = z3.Or(*[z3.And(is_cls[k].e, z3.Or(word_eq[k][0].e, word_eq[k][1].e)) for k in range(n_attrs)]) if n_attrs else z3.BoolVal(False)
+                    want = z3.And(z3.BoolVal(is_element), hit, rest.e)
+                    what = "a class selector matches elements that carry the class among the words of their class attribute"
+                elif comp == "Hash":
+                    hit = z3.Or(*[z3.And(is_id[k].e, val_eq[k].e) for k in range(n_attrs)]) if n_attrs else z3.BoolVal(False)
+                    want = z3.And(z3.BoolVal(is_element), hit, rest.e)
+                    what = "an id selector matches elements whose id attribute is that id"
+                elif comp == "Element":
+                    want = z3.And(z3.BoolVal(is_element), name_eq.e, rest.e)
+                    what = "an element selector matches elements of that name"
+                else:
+                    want = rest.e
+                    what = "* matches whatever the rest of the selector matches"
+                for (s2, ret) in outs:
+                    if not isinstance(ret, VBool):
+                        raise Inconclusive("do_matches did not return a boolean")
+                    post(exe, s2, ret.e == want, f.name, "%s (and the rest of the selector must match the same node)%s" % (what, "" if is_element else "; never a non-element node"))
+    # the sibling index of :nth-child: the number of matching element siblings up to and including the node
+    idx_local = int(f.debug["idx"][1:])
+    stop = None
+    for name in f.order:
+        raw = " ".join(f.blocks[name].raw)
+        if re.search(r"_(\d+) = copy _%d;\s*_\d+ = Eq\(move _\1, const 0_i32\)" % idx_local, raw) and not f.blocks[name].cleanup:
+            stop = name
+    if stop is None:
+        raise Inconclusive("could not locate the end of the sibling loop")
+    for n_sib in (1, 2, 3):
+        exe = make_exe(loop_bound=3 * n_sib + 6)
+        st = State()
+        is_el = [exe.fresh("bool", "sib%d.is_element" % k) for k in range(n_sib)]
+        sel_ok = [exe.fresh("bool", "sib%d.matches_of" % k) for k in range(n_sib)]
+        me = exe.fresh("u8", "node.position")
+        st.pc.append(z3.ULT(me.e, n_sib))
+        for k in range(n_sib):
+            st.pc.append(z3.Implies(me.e == k, is_el[k].e))     # the node itself is an element
+        sibs = VVec([VOpaque("Rc<Node>", "sib%d" % k) for k in range(n_sib)])
+        comps = VVec([VAgg("SelectorComponent::NthChild", "NthChild", [exe.fresh("i32", "a"), exe.fresh("i32", "b"), VOpaque("Selector", "of_selector")], ["a", "b", "sel"]),
+                      VOpaque("SelectorComponent", "next_component")])
+        parent = VAgg("Node", None, [VOpaque("Cell", "pp"), VOpaque("RefCell<Vec<Rc<Node>>>", "kids"), VOpaque("NodeData", "pdata")])
+
+        def nm2(exe_, st_, v):
+            while isinstance(v, VRef):
+                v = exe_.deref(st_, v)
+            return getattr(v, "name", None) or ""
+
+        def summ2(exe_, st_, f_, bb_, callee, args, dest_ty):
+            c = callee.strip()
+            if re.search(r"core::slice::<impl \[SelectorComponent\]>::first$", c):
+                return [(st_, VAgg("Option::Some", "Some", [VRef("val", comps.elems[0])]))]
+            if re.search(r"::get_parent$", c):
+                return [(st_, VAgg("Option::Some", "Some", [VOpaque("Rc<Node>", "the_parent")]))]
+            if re.search(r"^<Rc<Node> as Deref>::deref$", c):
+                n_ = nm2(exe_, st_, args[0])
+                m_ = re.match(r"sib(\d+)$", n_)
+                if m_:
+                    k = int(m_.group(1))
+                    el = st_.clone()
+                    el.pc.append(is_el[k].e)
+                    ne = st_.clone()
+                    ne.pc.append(z3.Not(is_el[k].e))
+                    mk = lambda variant, idx_: VRef("val", VAgg("Node", None, [VOpaque("Cell", "p"), VOpaque("RefCell", "c"),
+                                                                              VAgg("NodeData::" + variant, variant, [VOpaque("x", "payload%d" % idx_)] * (4 if variant == "Element" else 1))]))
+                    return [(el, mk("Element", k)), (ne, mk("Text", k))]
+                return [(st_, VRef("val", parent))]
+            if re.search(r"^RefCell::<Vec<Rc<Node>>>::borrow$", c):
+                return [(st_, VRef("val", sibs))]
+            if re.search(r"^<Ref<'_, Vec<Rc<Node>>> as Deref>::deref$", c):
+                return [(st_, args[0])]
+            if re.search(r"Selector::matches$", c):
+                m_ = re.match(r"sib(\d+)$", nm2(exe_, st_, args[1]))
+                return [(st_, sel_ok[int(m_.group(1))])] if m_ else None
+            if re.search(r"Rc::<Node>::ptr_eq$", c):
+                m_ = re.match(r"sib(\d+)$", nm2(exe_, st_, args[0]))
+                return [(st_, VBool(me.e == int(m_.group(1))))] if m_ else None
+            return orig(exe_, st_, f_, bb_, callee, args, dest_ty)
+        summaries.summarize = summ2
+        try:
+            outs = exe.run(f.name, {1: VRef("val", comps), 2: VRef("val", VOpaque("Rc<Node>", "the_node"))}, st, stop_at={stop})
+        finally:
+            summaries.summarize = orig
+        total += len(outs)
+        if not outs:
+            raise Inconclusive("sibling loop: no path returned")
+        # reference: count of siblings k <= me that are elements matching the `of` selector; the node itself must match
+        def cnt():
+            tot = z3.BitVecVal(0, 32)
+            for k in range(n_sib):
+                tot = tot + z3.If(z3.And(z3.ULE(z3.BitVecVal(k, 8), me.e), is_el[k].e, sel_ok[k].e), z3.BitVecVal(1, 32), z3.BitVecVal(0, 32))
+            return tot
+        me_ok = z3.Or(*[z3.And(me.e == k, sel_ok[k].e) for k in range(n_sib)])
+        n_stop = 0
+        for (s2, ret) in outs:
+            if isinstance(ret, tuple) and ret[0] == "stopped":
+                n_stop += 1
+                iv = s2.frames[ret[2]].get(idx_local)
+                if not isinstance(iv, VInt):
+                    raise Inconclusive("sibling index not recovered")
+                post(exe, s2, me_ok, f.name, "nth-child: the index is only used when the node itself matches the `of` selector")
+                post(exe, s2, iv.e == cnt(), f.name, "nth-child: the index is the number of matching element siblings up to and including the node (%d siblings)" % n_sib)
+            elif isinstance(ret, VBool):
+                post(exe, s2, z3.And(z3.Not(ret.e), z3.Not(me_ok)), f.name, "nth-child: gives up early only when the node itself does not match the `of` selector")
+            else:
+                raise Inconclusive("sibling loop: unexpected result")
+        if not n_stop:
+            raise Inconclusive("sibling loop: the index is never computed")
+    return {"function": f.name, "paths": total}
+
 
 ALL = [
     Spec("table_col_width", ["C06", "C02", "C01"], spec_table_col_width,
@@ -4678,6 +4888,11 @@ ALL = [
          bounds="a text line and a rule",
          assumptions=["TaggedLine::to_string / BorderHoriz::to_string are observed (same callee on the same value gives the same string)"],
          replay=lambda fd, vals, info: {"harness": "m_routes_width", "values": [[0]]}),
+    Spec("selector_simple", ["C20"], spec_selector_simple,
+         functions=["Selector::do_matches (Class, Hash, Element, Star arms; sibling loop of the NthChild arm)"],
+         bounds="element / non-element node; 0-2 attributes (class / id / other) with two-word values; 1-3 siblings, each arbitrarily element / matching; node at any position",
+         assumptions=["atom and string equalities are arbitrary booleans; DOM accessors by contract; the recursive call on the rest of the selector is an arbitrary boolean"],
+         replay=lambda fd, vals, info: {"harness": "m_selector_simple", "values": [[0]]}),
     Spec("link_footnotes", ["C08"], spec_link_footnotes,
          functions=["TextRenderer::start_link", "TextRenderer::end_link"],
          bounds="0-2 links already recorded; footnote flag symbolic",
